@@ -112,6 +112,8 @@ func lcConfig(which string, async bool, theta, upper log.Level) sys.Cfg {
 		cfg["bufferCap"], cfg["enable-caller"] = "2KB", "false"
 	}
 	switch which {
+	case "N": // appenders only: no logger section at all
+		cfg.AddRec("recN1")
 	case "A":
 		add("ha", "aa_x", lcSinks["A.ha"])
 	case "B":
@@ -421,7 +423,7 @@ func runHistory(r *hx.Result, rng *rand.Rand, console *sys.Console, tmp string, 
 			var which string
 			_ = json.Unmarshal(s.Arg, &which)
 			var m map[string]string
-			if which == "A" || which == "B" {
+			if which == "A" || which == "B" || which == "N" {
 				c := lcConfig(which, async, e.theta, e.upper)
 				m = c.Map(rng.Perm(len(c)))
 			} else {
